@@ -42,6 +42,17 @@ def stripAux : Nat → Bytes → Bytes
 
 def stripPadding (s : Bytes) : Bytes := stripAux s.length s
 
+/-- the contents (between `$<` and `>`) of the padding specifications `stripPadding` removes, in order -/
+def padSpecsAux : Nat → Bytes → List Bytes
+  | 0, _ => []
+  | _ + 1, [] => []
+  | f + 1, b :: r =>
+    match matchPad (b :: r) with
+    | some rest => (r.tail.takeWhile (· != 62)) :: padSpecsAux f rest
+    | none => padSpecsAux f r
+
+def padSpecs (s : Bytes) : List Bytes := padSpecsAux s.length s
+
 /-! ### cursor addressing -/
 
 inductive CupFamily where
